@@ -257,7 +257,7 @@ def campaign(binp, config, cases, tag, nvecs=2, nshards=8, keep=False, faults=Fa
             "nodes": total_nodes, "t_replay": round(t1 - t0, 1), "t_validate": round(t2 - t1, 1)}
 
 
-def random_campaign(binp, config, tag, nvecs, seed, traces, steps, maxlen):
+def random_campaign(binp, config, tag, nvecs, seed, traces, steps, maxlen, faultpct=0):
     """direction B: `traces` long random histories on one (binary, config), each a chain of events judged by TLC"""
     os.makedirs(WORK, exist_ok=True)
     outs = [os.path.join(WORK, "rnd-%s.%d" % (tag, k)) for k in range(traces)]
@@ -265,6 +265,8 @@ def random_campaign(binp, config, tag, nvecs, seed, traces, steps, maxlen):
     def one(k):
         cmd = [binp, "random", "--config", config, "--seed", str(seed * 1000 + k + 1), "--steps", str(steps), "--maxlen", str(maxlen),
                "--nvecs", str(nvecs), "--out", outs[k]]
+        if faultpct:
+            cmd += ["--faultpct", str(faultpct)]
         r = subprocess.run(cmd, stdout=subprocess.PIPE, stderr=subprocess.STDOUT, text=True)
         last = ""
         try:
